@@ -96,6 +96,15 @@ def dispatchC08 : List Str → Option (List Str)
       some (match readAll Marks.default args with
         | .ok items => "ok".toList :: items.filter (fun s => s.head? != some '!')
         | .error _ => ["err".toList])
+    else if cmd == "c08.fixed".toList then
+      -- c08.fixed <variant: 3 x 0/1> <limit 0/1> card* : fixed-form cards (with terminator) -> the statements
+      match args with
+      | v :: lim :: cards =>
+        let var : Fixed.Variant := match v with
+          | [a, b, c] => { blankShort := a == '1', col7Comment := b == '1', spacedExcess := c == '1' }
+          | _ => {}
+        some ("ok".toList :: fixedStatements var (lim == ['1']) cards)
+      | _ => some ["bad-request".toList]
     else if cmd == "c08.gate".toList then
       -- c08.gate <blocklevel> <masked line> : branch taken
       match args with
